@@ -9,6 +9,8 @@ From Coq Require Import List NArith ZArith Bool Lia Arith Setoid Morphisms.
 From GMK Require Import Term Unify UnifyTotal Goal Stream Den InStream Sound Complete ListRel RegexLang.
 From GMK.gen Require Import RelRegex.
 Import ListNotations.
+(* a changed relation body can send the case analyses below into a very long search: fail instead *)
+Set Default Timeout 90.
 
 (* ================================================================================================ *)
 (* 0. the encoding is the translator's *)
@@ -570,4 +572,37 @@ Section Closed.
     sem_destruct;
       try (match goal with H : Sem S derivecharo_body _ |- _ => apply derivecharo_sem in H; exact (H r c Hr Hc) end).
     all: name_env env; use_calls; ground; enc_exists; eauto 6 with rx.
-    Show.
+  Qed.
+
+  Lemma sderivos_closed env : Sem S sderivos_body env -> spec_derivs env.
+  Proof.
+    intros H r s Hr Hs. unfold sderivos_body in H. sem_cbn_in H. name_env env.
+    sem_destruct; use_calls; ground.
+    - exists r. split; [reflexivity|]. intros t. reflexivity.
+    - match goal with
+      | Hd : isderiv _ _ ?q, Hq : forall t, lang ?q' t <-> lang ?q (_ ++ t) |- _ =>
+          exists q'; split; [reflexivity|]; intros t; rewrite Hq; simpl; apply Hd
+      end.
+  Qed.
+End Closed.
+
+(* ================================================================================================ *)
+(* 5. soundness: every derivable call satisfies its specification (least-fixed-point induction over the table) *)
+Theorem regex_sound r env : DenCall ds r env -> regex_spec r env.
+Proof.
+  apply (call_lfp ds regex_spec). clear r env. intros r body env Hb HS.
+  set (S := fun r e => regex_spec r e /\ DenCall ds r e) in *.
+  assert (S0 : forall e, S nullo_idx e -> spec_nullo e) by (intros e [H _]; exact H).
+  assert (S1 : forall e, S isnullo_idx e -> spec_isnullo e) by (intros e [H _]; exact H).
+  assert (S2 : forall e, S derivo_idx e -> spec_deriv e) by (intros e [H _]; exact H).
+  assert (S3 : forall e, S sderivo_idx e -> spec_deriv e) by (intros e [H _]; exact H).
+  assert (S4 : forall e, S sderivos_idx e -> spec_derivs e) by (intros e [H _]; exact H).
+  destruct r as [|[|[|[|[|r]]]]]; cbn in Hb; try (destruct r; discriminate Hb);
+    injection Hb as <-; cbn [regex_spec].
+  - eapply nullo_closed; eassumption.
+  - eapply isnullo_closed; eassumption.
+  - eapply derivo_closed; eassumption.
+  - eapply sderivo_closed; eassumption.
+  - eapply sderivos_closed; eassumption.
+Qed.
+Print Assumptions regex_sound.
